@@ -236,6 +236,45 @@ func initKind(e ast.Expr, recv string) string {
 	return "other"
 }
 
+// envErrorPath: in module.load, what the `if err != nil` block that follows `… := m.env(proj)` returns:
+// "done" when it returns m.done(…) (waiters are woken and get the error), "plain" when it returns without done().
+func envErrorPath(fd *ast.FuncDecl) string {
+	if fd == nil {
+		return "missing"
+	}
+	recv := fd.Recv.List[0].Names[0].Name
+	for i, s := range fd.Body.List {
+		a, ok := s.(*ast.AssignStmt)
+		if !ok || len(a.Rhs) != 1 {
+			continue
+		}
+		if r, n := callOn(a.Rhs[0]); n != "env" || r != recv {
+			continue
+		}
+		for _, nx := range fd.Body.List[i+1:] {
+			if isHook(nx) {
+				continue
+			}
+			ifs, ok := nx.(*ast.IfStmt)
+			if !ok {
+				return "no-error-test"
+			}
+			for _, b := range ifs.Body.List {
+				if ret, ok := b.(*ast.ReturnStmt); ok {
+					if len(ret.Results) == 1 {
+						if r, n := callOn(ret.Results[0]); n == "done" && r == recv {
+							return "done"
+						}
+					}
+					return "plain"
+				}
+			}
+			return "no-return"
+		}
+	}
+	return "no-env-call"
+}
+
 func strList(xs []string) string {
 	var q []string
 	for _, x := range xs {
@@ -279,7 +318,8 @@ func main() {
 	skel(mf, "module.setLoading", "setLoadingSkeleton")
 	done := skel(mf, "module.done", "doneSkeleton")
 	wait := skel(mf, "module.wait", "waitSkeleton")
-	skel(mf, "module.load", "loadSkeleton")
+	load := skel(mf, "module.load", "loadSkeleton")
+	o.Def("envErrorPath", "String", lib.LeanString(envErrorPath(load)))
 	skel(pf, "Project.loadModule", "loadModuleSkeleton")
 	skel(pf, "Project.loadPackage", "loadPackageSkeleton")
 	if done != nil {
